@@ -7,6 +7,9 @@
 // input with Position() == k (reached with k ReadByte calls).
 // Output per op:  <out> p=<Position()> l=<Len()> a=<0|1>   joined by " ; "
 //
+// The line ends with ` | alias=-`, or ` | alias=<i>` when the string returned by op i (ReadString) changed after the stream
+// was compacted (Tidy) or reused (Reset + Write) later — see aliasCheck.
+//
 //	out = ok:<value> | err:<Enum> | panic
 //	a=1 iff the bytes allocated during the call (runtime.MemStats.TotalAlloc delta; single goroutine, GOMAXPROCS=1,
 //	GC off) exceed 2*(remaining input before the call) + 4096 (input-proportional plus a constant: a fixed-size lazily built table is not an input-driven allocation) — a yes/no figure so that the line stays deterministic.
@@ -153,11 +156,14 @@ func exec(c *hx.Ctx, line string) string {
 	input := unhex(strings.TrimSpace(parts[0]))
 	s, r := fresh(input, 0)
 	var out []string
+	var steps []step
+	hasStr := false
 	for _, f := range strings.Split(parts[1], ";") {
 		w := strings.Fields(f)
 		if len(w) == 0 {
 			continue
 		}
+		at := -1
 		if strings.HasPrefix(w[0], "@") {
 			k, err := strconv.Atoi(w[0][1:])
 			if err != nil || len(w) != 2 {
@@ -165,6 +171,7 @@ func exec(c *hx.Ctx, line string) string {
 			}
 			s, r = fresh(input, k)
 			w = w[1:]
+			at = k
 		}
 		op, ok := opNames[w[0]]
 		var buf []byte
@@ -179,6 +186,7 @@ func exec(c *hx.Ctx, line string) string {
 			op = opRaw
 			buf = make([]byte, n)
 		}
+		steps = append(steps, step{at, op, len(buf)})
 		remaining := s.Len() - s.Position()
 		var res result
 		runtime.ReadMemStats(&m0)
@@ -223,6 +231,9 @@ func exec(c *hx.Ctx, line string) string {
 				}
 			}
 		}
+		if op == opStr && !res.panicked && res.err == nil && len(res.sval) > 0 && len(res.sval) <= len(input) {
+			hasStr = true
+		}
 		a := 0
 		if allocated > uint64(2*remaining+4096) {
 			a = 1
@@ -236,7 +247,104 @@ func exec(c *hx.Ctx, line string) string {
 		}
 		out = append(out, fmt.Sprintf("%s p=%d l=%d a=%d", o, s.Position(), s.Len(), a))
 	}
-	return strings.Join(out, " ; ")
+	alias := "-"
+	if hasStr && allocViolations <= 30 {
+		alias = hx.SafeExec(func() string { return aliasCheck(input, steps) })
+		if strings.HasPrefix(alias, "panic") {
+			alias = "panic"
+		}
+	}
+	return strings.Join(out, " ; ") + " | alias=" + alias
+}
+
+type step struct {
+	at   int // >= 0: the call is made on a fresh stream positioned there
+	op   int
+	rawN int
+}
+
+// keptStr: a string returned by a successful ReadString, the bytes it had when it was returned, and the stream it came from
+type keptStr struct {
+	idx    int
+	s      string
+	want   []byte
+	stream *iox.OctetsStream
+}
+
+func firstChanged(ks []keptStr, on *iox.OctetsStream) int {
+	for _, k := range ks {
+		if (on == nil || k.stream == on) && k.s != string(k.want) {
+			return k.idx
+		}
+	}
+	return -1
+}
+
+// replay runs steps[:upto] (not metered), keeping every non-empty string returned by ReadString
+func replay(input []byte, steps []step, upto int) (ks []keptStr, streams []*iox.OctetsStream, cur *iox.OctetsStream) {
+	s, r := fresh(input, 0)
+	streams = append(streams, s)
+	for i := 0; i < upto; i++ {
+		st := steps[i]
+		if st.at >= 0 {
+			s, r = fresh(input, st.at)
+			streams = append(streams, s)
+		}
+		var res result
+		call(st.op, r, s, make([]byte, st.rawN), &res)
+		if st.op == opStr && !res.panicked && res.err == nil && len(res.sval) > 0 && len(res.sval) <= len(input) {
+			ks = append(ks, keptStr{i, res.sval, []byte(res.sval), s})
+		}
+	}
+	return ks, streams, s
+}
+
+// aliasCheck: a Go string is immutable, so a string returned by ReadString must keep the bytes it had when it was returned,
+// whatever happens to the stream later. Strings are kept (a) over the whole case, then every stream used is compacted with
+// Tidy() and afterwards reused with Reset() + Write(junk at least as long as the old contents); (b) for up to three ops i
+// that returned a string while unread data was left behind it: the case is replayed up to op i and the stream is compacted
+// right there (Tidy() really moves the unread bytes over the consumed region), then reused. Returns "-" or the index of the
+// first op whose returned string changed.
+func aliasCheck(input []byte, steps []step) string {
+	junk := make([]byte, len(input)+16)
+	for i := range junk {
+		junk[i] = 0xEE
+	}
+	stress := func(ks []keptStr, streams []*iox.OctetsStream) int {
+		for _, s := range streams {
+			s.Tidy()
+			if i := firstChanged(ks, s); i >= 0 {
+				return i
+			}
+		}
+		for _, s := range streams {
+			s.Reset()
+			_ = s.Write(junk)
+			if i := firstChanged(ks, s); i >= 0 {
+				return i
+			}
+		}
+		return -1
+	}
+	ks, streams, _ := replay(input, steps, len(steps))
+	if i := stress(ks, streams); i >= 0 {
+		return strconv.Itoa(i)
+	}
+	mid := 0
+	for _, k := range ks {
+		if mid >= 3 {
+			break
+		}
+		ks2, _, cur := replay(input, steps, k.idx+1)
+		if cur.Position() >= cur.Len() || len(ks2) == 0 {
+			continue // nothing unread behind it: Tidy would not move anything
+		}
+		mid++
+		if i := stress(ks2, []*iox.OctetsStream{cur}); i >= 0 {
+			return strconv.Itoa(i)
+		}
+	}
+	return "-"
 }
 
 func main() {
